@@ -7,6 +7,8 @@ from harness.known import replay_known  # noqa: F401
 
 MODULES = ["Univers.Props.C01", "Univers.Scheme.TablesThm"]
 LEVEL = "proof"
+# textual tie (regular expressions of /repo as the recognisers read them): runner step 3a
+TIE_THEOREMS = {"Univers.Scheme.RegexPins": ["Univers.Tables.regex_sites_pinned", "Univers.Tables.compiled_patterns_pinned"]}
 RULE = ("per scheme: pairs of version texts (grammar, respelling, mutation streams) — real '<', '>' and the raw three-way "
         "routine against the Lean model (`vercmp`, refined to a lawful sort key by theorem); plus all ordered triples of a pool "
         "of valid versions put to the five laws on the real operators; alpm triples mixing 'has pkgrel'/'no pkgrel' and conan "
